@@ -54,9 +54,16 @@ class Term:
         if isinstance(other, Term):
             return self._factor_key == other._factor_key
         if isinstance(other, str):
-            return self._factor_key == tuple(
-                sorted([m.group("factor") for m in self.FACTOR_MATCHER.finditer(other)])
-            )
+            factors = []
+            position = 0
+            for match in self.FACTOR_MATCHER.finditer(other):
+                if match.start() != position:
+                    return False  # part of the string is not a factor
+                factors.append(match.group("factor"))
+                position = match.end() + 1  # step over the ":" separator
+            if other and position != len(other) + 1:
+                return False  # trailing text that is not a factor
+            return self._factor_key == tuple(sorted(factors))
         return NotImplemented
 
     def __lt__(self, other: Any) -> bool:
